@@ -35,7 +35,12 @@ def read_input(input_file):
 
 
 def convert_to_bool_expression(qlassf: QlassF, form: str):
-    combined_expr = sympy.And(*[expr[1] for expr in qlassf.expressions])
+    # conjunction of the return bits; intermediate (CSE) definitions are substituted
+    defs: dict = {}
+    for sym, exp in qlassf.expressions:
+        defs[sym] = exp.xreplace(defs)
+    rets = [sympy.Symbol(r) for r in qlassf.returns.bitvec]
+    combined_expr = sympy.And(*[defs.get(r, r) for r in rets])
 
     if form == "anf":
         return to_anf(combined_expr)
